@@ -365,6 +365,9 @@ func (n Node) Access(flag ua.AccessLevelType) bool {
 
 	access, err := n.Attribute(ua.AttributeIDUserAccessLevel)
 	if err == nil { // if we have a user access level, we need to check it.
+		if access.Value.Value == nil { // an attribute without a value grants nothing
+			return false
+		}
 		val0 := access.Value.Value.Value()
 		val, ok := val0.(uint8)
 		if !ok {
@@ -376,6 +379,9 @@ func (n Node) Access(flag ua.AccessLevelType) bool {
 	}
 	access, err = n.Attribute(ua.AttributeIDAccessLevel)
 	if err == nil { // if we have an access level, we need to check it.
+		if access.Value.Value == nil { // an attribute without a value grants nothing
+			return false
+		}
 		val0 := access.Value.Value.Value()
 		val, ok := val0.(uint8)
 		if !ok {
